@@ -486,7 +486,14 @@ func checkBoxTx(txdata []byte, chainID uint16, txTime, nowTime uint64, isBlockTx
 		return err
 	}
 	// 遍历子交易并验证
+	seen := make(map[common.Hash]struct{}, len(box.SubTxList))
 	for _, subTx := range box.SubTxList {
+		// a box must not carry the same sub transaction twice: validators reject such a block (verifyTxs), so it must never be pooled or mined
+		if _, ok := seen[subTx.Hash()]; ok {
+			log.Errorf("Sub transaction is repeated in box transaction. subTx hash: %s", subTx.Hash().Hex())
+			return ErrVerifyBoxTx
+		}
+		seen[subTx.Hash()] = struct{}{}
 		// 确保tx的expiration time小于或者等于箱子中的所有子交易的expiration time
 		if txTime > subTx.Expiration() {
 			log.Errorf("Sub transaction's expiration time is less than box transaction. boxTx time: %d, subTx time: %d", txTime, subTx.Expiration())
